@@ -775,6 +775,7 @@ func (c *wsConn) readFrame(ctx context.Context, r io.Reader) {
 		return
 	}
 
+	vpoint(c, "rd.queue.pre", "n", len(buf))
 	c.frameExecQueue <- buf
 	vpoint(c, "rd.queue", "n", len(buf))
 	if len(c.frameExecQueue) > 2*cap(c.frameExecQueue)/3 { // warn at 2/3 capacity
